@@ -172,6 +172,7 @@ def run_c07(prop, cfg, tier, seed):
     # real runtime (template variants without the left-recursion code) against the runtime model: only termination
     # is compared here (a crash = Go stack overflow, or a timeout where the model returns).
     rt_sr, rt_header = h1.StreamResult(), None
+    wfg = {}
     wd = core.workdir(prop + "_rt")
     novar = [v for v in core.ALL_VARIANTS if v[5] == "0"]
     for k, (prof, nq_rt, nt_rt) in enumerate((("core", 2500, 60000), ("utf8", 1500, 30000), ("throw", 500, 10000))):
@@ -179,6 +180,11 @@ def run_c07(prop, cfg, tier, seed):
         core.gen_cases(prof, seed, nq_rt if tier == "quick" else nt_rt, cf, variants=novar, id0=(k + 1) * 400_000 + 1)
         rt_header, lines = core.read_cases(cf)
         h1.run_stream(wd, rt_header, lines, (lambda r: ()), None, rt_sr, prof)
+        try:
+            wfg.update(core.run_wfg_lines(rt_header, lines))
+        except Exception as e:
+            log("wfg query failed: %s" % e)
+    wfg_yes = sum(1 for v in wfg.values() if v)
     if rt_header:
         h1.confirm_timeouts(rt_header, rt_sr)
     lst = findings.listed(prop)
@@ -192,6 +198,8 @@ def run_c07(prop, cfg, tier, seed):
         except Exception:
             scl, sil, sml = cl, il, ml
         msg = "a parser generated without left-recursion support does not return on this input although the grammar has no same-position cycle and the runtime model returns: " + why
+        if wfg.get(cl.split(" ", 2)[1]):
+            msg += " (the grammar passes the kernel-proved checker RT.checkWFG: theorem C07_checked_grammars_terminate says the parse terminates)"
         pth = core.write_replay(prop, "runtime_%s" % hashlib.md5(scl.encode()).hexdigest()[:10],
                                 {"property": prop, "kind": "runtime-termination", "why": msg, "header": rt_header, "case": scl,
                                  "pretty": h1.pretty_case(rt_header, scl), "impl": sil, "model": sml,
@@ -244,6 +252,7 @@ def run_c07(prop, cfg, tier, seed):
            "evaluations": len(cases) + rt_sr.cases, "distinct_nontrivial": len(distinct) + rt_sr.nontrivial,
            "duplicate_definition_cases": dup_checked,
            "runtime_termination_stream": {"cases": rt_sr.cases, "non_terminating_or_crashing_on_impl_only": len(rt_sr.disagree),
+                                          "cases_accepted_by_proved_wellformedness_checker": wfg_yes, "cases_asked": len(wfg),
                                           "inconclusive": rt_sr.inconclusive, "result_kinds": rt_sr.kinds},
            "rule": "random grammars of 1-4 rules biased towards references behind nullable prefixes, predicates and repetitions, each with up to 4 visiting orders; distinct = distinct (grammar, order)",
            "traces_validated_against_impl": len(cases) - len(disagree),
